@@ -32,6 +32,9 @@ fn main() {
         props::c05::show(args[2] != "thorough", args[3].parse().unwrap_or(0));
         return;
     }
+    if args.len() >= 3 && args[1] == "C20HUGE" {
+        std::process::exit(props::c20::huge_child(args[2].parse().unwrap_or(0)));
+    }
     if args.len() >= 4 && args[1] == "C25DEEP" {
         std::process::exit(props::c25::deep_child(&args[2], args[3].parse().unwrap_or(1000)));
     }
